@@ -327,6 +327,7 @@ func (v *Protocol) ReadMessage() (m *Message, err error) {
 		if chunk, ok = v.input.chunks[cid]; !ok {
 			chunk = newChunkStream()
 			v.input.chunks[cid] = chunk
+			chunk.cid = cid
 			chunk.header.betterCid = cid
 		}
 
